@@ -8,7 +8,7 @@ def plan(tier):
                 "cfg": "SuffixIndexMC_C06_n.cfg" if q else "SuffixIndexMC_C06_n_thorough.cfg",
                 "timeout": 3000, "args": ["-coverage", "1"]}],
         "families": [{"fam": "fmd", "trace": "SuffixIndexTraceFmd", "nfiles": 2, "timeout": 3000}],
-        "required_obligations": ["exhaustive_small", "bwt_run_longer_than_occ_rate", "fmd_over_120_sequences", "palindromic_sequence", "periodic_sequence",
+        "required_obligations": ["exhaustive_small", "tables_from_reduced_alphabet", "ext_past_empty", "ext_past_empty_absent_symbol", "bwt_run_longer_than_occ_rate", "fmd_over_120_sequences", "palindromic_sequence", "periodic_sequence",
                                  "repeated_between_sequences", "with_n", "with_lower_case", "several_sequences",
                                  "occ_rate_gt64_second_checkpoint", "min_len_eq_pattern_len", "ext_spelled_occurring",
                                  "ext_every_symbol"],
@@ -27,7 +27,11 @@ def plan(tier):
         "assumptions": ["ndJsonDeserialize/TLC evaluate the TLA+ definitions faithfully",
                         "patterns and extension symbols are over ACGTNacgtn (no sentinel: suffixes starting with '$' "
                         "are ordered by position, so '$' has no bi-interval); l >= 1",
-                        "an empty bi-interval is never extended further (its bounds carry no meaning)",
+                        "extension chains go on past empty bi-intervals: only size 0 is demanded there (the bounds of an "
+                        "empty bi-interval carry no meaning)",
+                        "less/Occ are built from dna::n_alphabet(), or from the reduced alphabets $ACGTN / ACGTN when "
+                        "sequences, patterns and extension symbols are upper case (smaller alphabets are not served by "
+                        "the unchanged code: backward_ext consults Occ for the symbols of $TGCNA up to the extended one)",
                         "for |P| > 5 the trace spec evaluates MemsFast (longest-occurring-extension table) instead of "
                         "the literal Mems; their equality is an MC lemma (MemsFastLemma)"],
     }
